@@ -51,6 +51,7 @@ theorem len_specs : ∀ f, LenP f ∧ LenO f ∧ LenI f ∧ LenA f
       | .id s :: .comma :: ts, h => simp [primary] at h; obtain ⟨_, rfl⟩ := h; simp
       | .id s :: .not :: ts, h => simp [primary] at h; obtain ⟨_, rfl⟩ := h; simp
       | .id s :: .op _ :: ts, h => simp [primary] at h; obtain ⟨_, rfl⟩ := h; simp
+      | .id s :: .sym _ :: ts, h => simp [primary] at h; obtain ⟨_, rfl⟩ := h; simp
       | .op o :: ts, h =>
         cases o <;> simp only [primary] at h <;> try (simp at h)
         obtain ⟨x, hx, h⟩ := Res.bind_eq_ok h
@@ -68,6 +69,7 @@ theorem len_specs : ∀ f, LenP f ∧ LenO f ∧ LenI f ∧ LenA f
       | [], h => simp [primary] at h
       | .rp :: ts, h => simp [primary] at h
       | .comma :: ts, h => simp [primary] at h
+      | .sym _ :: ts, h => simp [primary] at h
     have hO : LenO (f + 1) := by
       intro lhs minP ts e rest h
       cases ts with
@@ -98,6 +100,7 @@ theorem len_specs : ∀ f, LenP f ∧ LenO f ∧ LenI f ∧ LenA f
         | rp => simp [outer] at h; exact ⟨by simp [← h.2], fun _ _ heq => by simp at heq⟩
         | comma => simp [outer] at h; exact ⟨by simp [← h.2], fun _ _ heq => by simp at heq⟩
         | not => simp [outer] at h; exact ⟨by simp [← h.2], fun _ _ heq => by simp at heq⟩
+        | sym a => simp [outer] at h; exact ⟨by simp [← h.2], fun _ _ heq => by simp at heq⟩
     have hI : LenI (f + 1) := by
       intro rhs p ts e rest h
       cases ts with
@@ -120,6 +123,7 @@ theorem len_specs : ∀ f, LenP f ∧ LenO f ∧ LenI f ∧ LenA f
         | rp => simp [inner] at h; simp [← h.2]
         | comma => simp [inner] at h; simp [← h.2]
         | not => simp [inner] at h; simp [← h.2]
+        | sym a => simp [inner] at h; simp [← h.2]
     have hA : LenA (f + 1) := by
       intro ts args rest h
       simp only [params] at h
@@ -199,6 +203,7 @@ theorem na_specs : ∀ f, NaP f ∧ NaO f ∧ NaI f ∧ NaA f
       | .id s :: .comma :: ts, _ => intro w; simp [primary]
       | .id s :: .not :: ts, _ => intro w; simp [primary]
       | .id s :: .op _ :: ts, _ => intro w; simp [primary]
+      | .id s :: .sym _ :: ts, _ => intro w; simp [primary]
       | .op o :: ts, hf =>
         simp at hf
         intro w
@@ -212,6 +217,7 @@ theorem na_specs : ∀ f, NaP f ∧ NaO f ∧ NaI f ∧ NaA f
       | [], _ => intro w; simp [primary]
       | .rp :: ts, _ => intro w; simp [primary]
       | .comma :: ts, _ => intro w; simp [primary]
+      | .sym _ :: ts, _ => intro w; simp [primary]
     have hO : NaO (f + 1) := by
       intro lhs minP ts hf
       cases ts with
@@ -236,6 +242,7 @@ theorem na_specs : ∀ f, NaP f ∧ NaO f ∧ NaI f ∧ NaA f
         | rp => intro w; simp [outer]
         | comma => intro w; simp [outer]
         | not => intro w; simp [outer]
+        | sym a => intro w; simp [outer]
     have hI : NaI (f + 1) := by
       intro rhs p ts hf
       cases ts with
@@ -257,6 +264,7 @@ theorem na_specs : ∀ f, NaP f ∧ NaO f ∧ NaI f ∧ NaA f
         | rp => intro w; simp [inner]
         | comma => intro w; simp [inner]
         | not => intro w; simp [inner]
+        | sym a => intro w; simp [inner]
     have hA : NaA (f + 1) := by
       intro ts hf
       simp only [params]
